@@ -53,7 +53,7 @@ def main():
         sys.exit(1)
     # run our checks against /repo with the patch
     caught = {}
-    chk = "/tmp/wt/_chk"  # scratch worktree kept at /repo's HEAD (so that concurrent check runs on /repo are not disturbed)
+    chk = os.environ.get("VERIF_CHK_WT", "/tmp/wt/_chk")  # scratch worktree kept at /repo's HEAD (so that concurrent check runs on /repo are not disturbed)
     head_repo = subprocess.check_output(["git", "-C", "/repo", "rev-parse", "HEAD"], text=True).strip()
     sh("git checkout -q -- . && git checkout -q --detach " + head_repo, cwd=chk)
     rc, out = sh(f"git apply --check {patch}", cwd=chk)
